@@ -10,7 +10,13 @@ import subprocess
 import sys
 
 root = sys.argv[1]
-ids = sys.argv[2:]
+style = 'classic'
+ids = []
+for a in sys.argv[2:]:
+    if a.startswith('--style='):
+        style = a.split('=', 1)[1]
+    else:
+        ids.append(a)
 props = [json.loads(l) for l in open('/verif/properties.jsonl')]
 os.makedirs(root, exist_ok=True)
 for p in props:
@@ -23,6 +29,9 @@ for p in props:
     wt = f'{root}/{pid}'
     if not os.path.isdir(wt):
         subprocess.run(['git', '-C', '/repo', 'worktree', 'add', '-q', '--detach', wt, 'HEAD'], check=True)
+    classic = """What is wanted this time are the CLASSIC small mistakes a maintainer makes while editing this code, one per change, for example: an off-by-one or a wrong comparison operator (< vs <=), a wrong variable / swapped arguments of the same type, a missing or misplaced copy, an update applied in the wrong order or one statement too early / too late, a wrong default or constant, a condition that is right for the common case and wrong for a boundary (empty, first, last, single element, equal values), a dropped term of a formula, a sign error, integer instead of true division, a missing normalisation. Each change is a few lines at most and must look like an honest edit, not sabotage."""
+    shared = f"""What is wanted this time are regressions that enter through code the property's own files DEPEND ON rather than through those files themselves: at least TWO of your three changes must be made OUTSIDE the anchored files listed above - in a base class, a shared helper or utility, a validator, a wrapper, a tracker or storage the anchored code uses, a package `__init__`, a default argument or class attribute (look through {wt}/ixai/explainer/base.py, ixai/utils/validators/, ixai/utils/wrappers/, ixai/utils/tracker/, ixai/storage/, ixai/imputer/ and the package `__init__` files) - and still make the STATED property fail when observed through the public API of the anchored classes. The third change may be anywhere. Typical honest edits of this kind: a helper generalised for a new caller and now subtly different for the old one, a validator that normalises / wraps / copies its argument differently, a base-class default or attribute changed, a shared function made to return a view / generator / other container type instead of a list or dict, an added cache or early return in a utility, a changed exception type, a renamed keyword forwarded wrongly. Each change is a few lines at most and must look like an honest edit, not sabotage."""
+    wanted = classic if style == 'classic' else shared
     prev = '\n'.join(f' ({i + 1}) "{c}"' for i, c in enumerate(earlier))
     text = f"""You are helping evaluate a verification framework by writing THREE small, independent, realistic regressions ("seeded bugs") for the Python library HammerLabML/iXAI (incremental PFI / SAGE feature importance for streaming models, with storages, imputers, running-statistic trackers and model wrappers).
 
@@ -38,7 +47,7 @@ CODE IT IS ANCHORED IN: {', '.join(p['anchors']['files'])}
 Other engineers already seeded these bugs for the same property; yours must be of OTHER kinds (and your three must differ from each other: different code sites or different mechanisms):
 {prev}
 
-What is wanted this time are the CLASSIC small mistakes a maintainer makes while editing this code, one per change, for example: an off-by-one or a wrong comparison operator (< vs <=), a wrong variable / swapped arguments of the same type, a missing or misplaced copy, an update applied in the wrong order or one statement too early / too late, a wrong default or constant, a condition that is right for the common case and wrong for a boundary (empty, first, last, single element, equal values), a dropped term of a formula, a sign error, integer instead of true division, a missing normalisation. Each change is a few lines at most and must look like an honest edit, not sabotage.
+{wanted}
 
 For EACH of the three changes k = 1, 2, 3:
  1. the library still imports and the existing test suite still passes exactly as before: run, from {wt},  `/venv/bin/python -m pytest -q -p no:cacheprovider --timeout=900 tests`  (before your change all 38 tests pass; that must stay so). Always run python from the directory {wt} so that `import ixai` resolves to the worktree (check with `/venv/bin/python -c "import ixai; print(ixai.__file__)"`).
